@@ -20,6 +20,7 @@ import Driver.MdDrv
 import Driver.Layout
 import Driver.MdsFile
 import Driver.Diag
+import Driver.Hist
 open Driver
 
 def allHandlers : List Handler :=
@@ -40,6 +41,7 @@ def allHandlers : List Handler :=
   ++ LayoutD.handlers
   ++ MdsFileD.handlers
   ++ DiagD.handlers
+  ++ HistD.handlers
 
 def answerModel (cmd arg : String) : String :=
   match allHandlers.find? (·.cmd == cmd) with
